@@ -95,6 +95,8 @@ struct vfd {
 	int owner;		/* instance index */
 	int kind;		/* 1 udp, 2 tun */
 	struct dgram *head, *tail;
+	unsigned char *prev;	/* previous datagram read from this fd (residue mode 4) */
+	int prevlen;
 };
 
 struct inst {
@@ -121,7 +123,7 @@ static pthread_cond_t cnd = PTHREAD_COND_INITIALIZER;
 static int turn = -1;		/* -1 kernel, else instance index */
 
 static long long vt_us = 0;	/* virtual time in microseconds */
-static int residue_mode = 0;	/* 0 leave, 1 zeros, 2 0xA5, 3 blob then 0x5A */
+static int residue_mode = 0;	/* 0 leave, 1 zeros, 2 0xA5, 3 blob then 0x5A, 4 tail of the previous datagram then 0x5A */
 static unsigned char *residue_blob;
 static int residue_len;
 static int system_rc = 0;
@@ -476,9 +478,28 @@ int __wrap_ioctl(int fd, unsigned long req, ...)
 	return 0;
 }
 
-static void paint(unsigned char *buf, size_t got, size_t cap)
+static void paint(struct vfd *v, unsigned char *buf, size_t got, size_t cap)
 {
 	size_t rest, n;
+	if (residue_mode == 4) {
+		/* what a real kernel leaves behind: the bytes of the previous, longer datagram */
+		if (got < cap) {
+			rest = cap - got;
+			n = 0;
+			if (v->prev && (size_t) v->prevlen > got) {
+				n = (size_t) v->prevlen - got;
+				if (n > rest) n = rest;
+				memcpy(buf + got, v->prev + got, n);
+			}
+			if (rest > n)
+				memset(buf + got + n, 0x5A, rest - n);
+		}
+		free(v->prev);
+		v->prev = malloc(got + 1);
+		memcpy(v->prev, buf, got);
+		v->prevlen = (int) got;
+		return;
+	}
 	if (got >= cap || residue_mode == 0)
 		return;
 	rest = cap - got;
@@ -540,7 +561,7 @@ ssize_t __wrap_recvfrom(int fd, void *buf, size_t len, int flags,
 	}
 	n = (size_t) d->len < len ? (size_t) d->len : len;
 	memcpy(buf, d->data, n);
-	paint(buf, n, len);
+	paint(v, buf, n, len);
 	fill_from(d, sa, slen);
 	emit("rcv %s %d %d", insts[cur].name, fd, (int) n);
 	free(d);
@@ -572,7 +593,7 @@ ssize_t __wrap_recvmsg(int fd, struct msghdr *msg, int flags)
 	if (n)
 		memcpy(msg->msg_iov[0].iov_base, d->data, n);
 	if (cap)
-		paint(msg->msg_iov[0].iov_base, n, cap);
+		paint(v, msg->msg_iov[0].iov_base, n, cap);
 	if (msg->msg_name) {
 		socklen_t sl = msg->msg_namelen;
 		fill_from(d, msg->msg_name, &sl);
@@ -636,7 +657,7 @@ ssize_t __wrap_read(int fd, void *buf, size_t len)
 	}
 	n = (size_t) d->len < len ? (size_t) d->len : len;
 	memcpy(buf, d->data, n);
-	paint(buf, n, len);
+	paint(v, buf, n, len);
 	emit("tunr %s %d %d", insts[cur].name, fd, (int) n);
 	free(d);
 	return n;
@@ -713,7 +734,7 @@ static void dump_users(void)
 				dg = fnv(u->outpacket.data, u->outpacket.len, dg);
 			dg = fnv(&u->outpacket.seqno, 2, dg);
 			dg = fnv(&u->outfragresent, 4, dg);
-			dg = fnv(&u->encoder, sizeof(void *), dg);
+			dg = fnv(encname(u->encoder), strlen(encname(u->encoder)), dg);	/* not the pointer: ASLR */
 			dg = fnv(&u->downenc, 1, dg);
 			dg = fnv(&u->fragsize, 4, dg);
 			dg = fnv(&u->conn, sizeof(u->conn), dg);
